@@ -865,6 +865,14 @@ def seed_jobs():
         (base, "alpha", [], [{"add_comments": {"by_name": "Foo.flag", "comments": ["a flag"]}}]),
         (base, "alpha", [{"rename": {"by_object": "foo", "as": "FooBuilder"}}], []),
         (base, "alpha", [{"omit": {"by_name": "BAR"}}], []),
+        # copies keep the default marker unfold_boolean puts on the option matching the field's default (Default = &OptionDefault{})
+        (base, "alpha", [], [{"unfold_boolean": {"by_name": "Foo.flag", "true_as": "on", "false_as": "off"}},
+                             {"duplicate": {"by_name": "Foo.on", "as": "onAgain"}}]),
+        (base, "alpha", [{"duplicate": {"by_object": "Foo", "as": "FooCopy"}}],
+         [{"unfold_boolean": {"by_builder": "FooCopy.flag", "true_as": "on", "false_as": "off"}}]),
+        # merge_into only carries the CONSTANT constructor assignments of the source over (not the promoted, argument-driven ones)
+        (base, "alpha", [{"promote_options_to_constructor": {"by_object": "Foo", "options": ["tags"]}},
+                         {"merge_into": {"destination": "Bar", "source": "Foo", "under_path": "foo"}}], []),
         # deep copies share nothing: writes on the copy leave the original alone
         (base, "alpha", [], [{"duplicate": {"by_name": "Foo.tags", "as": "tagsAgain"}}, {"array_to_append": {"by_name": "Foo.tagsAgain"}}]),
         (base, "alpha", [{"duplicate": {"by_object": "Foo", "as": "FooCopy"}}], [{"rename_arguments": {"by_builder": "FooCopy.flag", "as": ["enabled"]}}]),
@@ -881,6 +889,16 @@ def seed_jobs():
     for f in two_pass["files"]:
         f["yaml"] = render_yaml(f)
     jobs.append(two_pass)
+    # unfold_boolean at the common level, then a copying rule at the language level: the copy keeps the marker
+    for lang_b, lang_o in (([{"duplicate": {"by_object": "Foo", "as": "FooCopy"}}], []),
+                           ([], [{"duplicate": {"by_name": "Foo.on", "as": "onAgain"}}])):
+        j = {"schemas": copy.deepcopy(base), "language": "go", "via": "yaml" if lang_o else "direct", "files": [
+            {"language": "all", "package": "alpha", "builders": [],
+             "options": [{"unfold_boolean": {"by_name": "Foo.flag", "true_as": "on", "false_as": "off"}}]},
+            {"language": "go", "package": "alpha", "builders": lang_b, "options": lang_o}]}
+        for f in j["files"]:
+            f["yaml"] = render_yaml(f)
+        jobs.append(j)
     for n, (schemas, pkg, brs, ors) in enumerate(cases):
         f = {"language": "all", "package": pkg, "builders": copy.deepcopy(brs), "options": copy.deepcopy(ors)}
         f["yaml"] = render_yaml(f)
@@ -944,6 +962,20 @@ def two_level_job(rng):
     g.bs = [x for x in builders_of(schemas) if x["pkg"] == b["pkg"]]
     o1, o2 = r.sample(b["opts"], 2)
     common_opts = []
+    bools = [f for f in b["opts"] if f["type"].get("k") == "scalar" and f["type"].get("sk") == "bool" and f["type"].get("def") is not None]
+    if bools and r.random() < 0.6:
+        # unfold a boolean that has a default, then copy: the default marker must survive DeepCopy
+        f = r.choice(bools)
+        common = [{"unfold_boolean": {"by_builder": b["name"] + "." + f["name"], "true_as": "on", "false_as": "off"}}]
+        if r.random() < 0.5:
+            lang_b, lang_o = [{"duplicate": {"by_object": b["obj"], "as": "Copy"}}], []
+        else:
+            lang_b, lang_o = [], [{"duplicate": {"by_builder": b["name"] + "." + r.choice(["on", "off"]), "as": "again"}}]
+        files = [{"language": "all", "package": b["pkg"], "builders": [], "options": common},
+                 {"language": "go", "package": b["pkg"], "builders": lang_b, "options": lang_o}]
+        for fl in files:
+            fl["yaml"] = render_yaml(fl)
+        return {"schemas": schemas, "language": "go", "via": "yaml" if r.random() < 0.5 else "direct", "files": files}
     c = r.random()
     if c < 0.35:
         common_opts.append({"omit": {"by_builder": b["name"] + "." + o1["name"]}})
